@@ -6,7 +6,13 @@
                               and w = IndexToPath(h, i)
 
     The specification side is the checker of Spec/IndexToPathSpec.v: the word
-    is the word of a node of the full tree whose pre-order index is idx. *)
+    is the word of a node of the full tree whose pre-order index is idx.
+
+    Widened (Spec/IndexToPathWideSpec.v):
+    bmtree.IndexToPath/fields    [h, idx]  obs [PathLen, PathHeight, PathBits, PathMask, PathStr] of IndexToPath(h, idx)
+    bmtree.IndexToPath/order     [h, i, j] obs sign of comparing IndexToPath(h, i) with IndexToPath(h, j)
+    bmtree.PathToIndexLoose/full [h, node] obs [i, has, IndexToPath(h, i)] with (i, has) = PathToIndexLoose(2^(h+1)-1, NewPath(node))
+    bmtree.Height/full           [h]       obs Height(2^(h+1)-1) *)
 From Coq Require Import ZArith List Bool String.
 From Low Require Import Lib.Bits Lib.BitSeq Lib.Lex Lib.Bytes Lib.Val
   Spec.Bmtree Spec.PathSpec Spec.IndexToPathSpec Spec.IndexToPathWideSpec
@@ -137,4 +143,17 @@ Definition op_loose_full : opdef :=
            | _, _ => VBad end
        | _ => VBad end) |}.
 
-Definition ops_C05 : list opdef := [ op_index_to_path; op_inverse; op_fields; op_order; op_loose_full ].
+(** Height of the full tree's bitmap size: what callers pass as [treeheight] *)
+Definition op_height_full : opdef :=
+  {| op_name := "bmtree.Height/full";
+     op_run := fun a => match a with
+       | [h] => match as_z h with
+           | Some h => if (0 <=? h) && (h <=? 30) then VZ (Height (2 ^ (h + 1) - 1)) else VBad
+           | None => VBad end
+       | _ => VBad end;
+     op_spec := fun_spec (fun a => match a with
+       | [h] => match as_z h with Some h => VZ h | None => VBad end
+       | _ => VBad end) |}.
+
+Definition ops_C05 : list opdef :=
+  [ op_index_to_path; op_inverse; op_fields; op_order; op_loose_full; op_height_full ].
